@@ -83,17 +83,18 @@ PROPS = {
     },
     "C19": {
         "lean": ["C19"],
-        "required": ["C19.c19_limits_nonneg", "C19.c19_member_limit", "C19.c19_erdma_res", "C19.c19_slots_daemon", "C19.c19_ip_capacity_daemon",
+        "required": ["C19.c19_nodecap_follows_type", "C19.c19_limits_nonneg", "C19.c19_member_limit", "C19.c19_erdma_res", "C19.c19_slots_daemon", "C19.c19_ip_capacity_daemon",
                      "C19.c19_watermarks", "C19.c19_erdma_capacity", "C19.c19_feature_gating_daemon", "C19.c19_flavor_slots", "C19.c19_flavor_gated",
                      "C19.c19_anno_ips", "C19.c19_feature_gating_crd", "C19.c19_node_res", "C19.c19_crd_ipv6_not_gated_witness"],
         "rule": "instance-type vectors (eni quantity 0-63, per-interface IPs 0-63 incl. negative, IPv6, total, ERI, trunk support) through the real "
                 "GetLimitFromAnno/getInstanceType; the derived Limits (85%) or arbitrary vectors (15%) x daemon configs (max/min ENI, pool sizes incl. negative, "
                 "shift -1/0/1, trunk/erdma/CRD switches, both modes) through getPoolConfig and checkInstance; every 4th case runs the real nodeReconcile.Reconcile "
-                "(fake client, ConfigMap, OS-capability switch, exclusive label) and then the controller's k8sAnno+patchNodeRes on the flavor it produced. "
+                "(fake client, ConfigMap, OS-capability switch, exclusive label) and then the controller's k8sAnno+patchNodeRes on the flavor it produced; 300 / 5000 node histories (2-6 reconciles of the REAL node controller over a fake client while the Kubernetes Node's "
+                "instance-type / provider-id / zone / region labels change: in-place resize, replacement under the same name, label corrections; limits lookup failing at 12% of the reconciles), the Node CR's metadata and capacity compared after every reconcile. "
                 "non-trivial = multi-adapter type / clamped watermark / multi-slot flavor; distinct = distinct op line.",
         "technique": "Lean 4 integer-arithmetic theorems (omega + product monotonicity) over a transcription of the capacity functions; differential correspondence through the real functions and reconcilers",
         "level_text": "Theorems for all limit vectors with at least the primary adapter and all configurations (default ratio, no positive shift): slots <= adapters-1, capacity = slots x per-interface <= (adapters-1) x per-interface, "
-                      "0 <= min <= max <= capacity, RDMA capacity bounded, CRD flavor sums to exactly adapters-1 with gated single trunk/RDMA slots, controller annotations/resources bounded, unsupported features switched off. "
+                      "0 <= min <= max <= capacity, RDMA capacity bounded, CRD flavor sums to exactly adapters-1 with gated single trunk/RDMA slots, controller annotations/resources bounded, unsupported features switched off; in every history of node-controller reconciles the Node CR carries the limits of the node's current instance type whenever a reconcile succeeds. "
                       "The IPv6 gating clause is false for the CRD reconciler (witness theorem, known finding).",
         "level_note": "Trusted: Lean kernel; Model/Capacity.lean hand-written, EniCapRatio only at its default 1 (the float multiplication is not modelled); the legacy builder's annotation arithmetic (daemon/builder.go, inline in setupENIManager) and the "
                       "ERDMA device-plugin count are not tied (cannot be called in isolation); adapters = 0 is outside the domain (the daemon does not reject it).",
